@@ -10,11 +10,11 @@ RULE = ("random statement sequences (1-8 statements) over 6 variable names (two 
         "statement at every position, the empty program; initial contexts empty / pre-bound with every value type. The value and the final context "
         "are compared with the model; `x op= e` is also compared with `x = x op e` on equal contexts. distinct class = (assignment operator, old "
         "value class, new value class, outcome)")
-VARS = ["a", "b", "c", "d", "max", "sum"]
+VARS = ["a", "b", "c", "d", "max", "sum", "m", "m.k", "a.b"]  # `m.k` is one plain name, whatever `m` holds
 FN_TARGETS = ["rate", "quota"]  # bound to context functions: reading the target calls the function
 SETTERS = gen.SETTER_OPS
 FAILING = [["bin", "/", ["num", "1", 0], ["num", "0", 0]], ["bin", "+", ["ref", "nil"], ["num", "1", 0]], ["fn", "nosuch", []], ["un", "!", ["num", "1", 0]], ["fn", "min", []]]
-INIT_VALUES = [["n", "0", 0], ["n", "5", 0], ["n", "-3", 0], ["n", "25", 1], ["n", "30", 1], ["b", True], ["s", "ab"], ["s", ""], ["l", [["n", "1", 0], ["s", "a"]]], ["l", []], ["m", [[["s", "k"], ["n", "1", 0]]]], ["z"], ["n", "79228162514264337593543950335", 0], ["n", "9223372036854775807", 0]]
+INIT_VALUES = [["n", "0", 0], ["n", "5", 0], ["n", "-3", 0], ["n", "25", 1], ["n", "30", 1], ["b", True], ["s", "ab"], ["s", ""], ["l", [["n", "1", 0], ["s", "a"]]], ["l", []], ["m", [[["s", "k"], ["n", "1", 0]]]], ["m", [[["s", "k"], ["n", "8", 0]], [["s", "b"], ["n", "9", 0]], [["n", "1", 0], ["s", "one"]]]], ["z"], ["n", "79228162514264337593543950335", 0], ["n", "9223372036854775807", 0]]
 
 
 class AsgGen:
@@ -37,7 +37,7 @@ class AsgGen:
         r = self.rnd
         if d <= 0 or r.random() < 0.3:
             return self.leaf()
-        k = gen.wchoice(r, [("arith", 7), ("cmp", 0.7), ("bit", 0.7), ("list", 0.5), ("tern", 1), ("call", 1.5), ("nested", 1.5), ("un", 0.7), ("post", 1)])
+        k = gen.wchoice(r, [("arith", 7), ("cmp", 0.7), ("bit", 0.7), ("list", 0.5), ("map", 0.6), ("tern", 1), ("call", 1.5), ("nested", 1.5), ("un", 0.7), ("post", 1)])
         if k == "arith":
             return ["bin", r.choice(["+", "-", "*", "+", "-", "%"]), self.expr(d - 1), self.expr(d - 1)]
         if k == "cmp":
@@ -46,6 +46,9 @@ class AsgGen:
             return ["bin", r.choice(["<<", ">>", "&", "|", "^"]), self.expr(d - 1), self.expr(d - 1)]
         if k == "list":
             return ["list", [self.expr(d - 1) for _ in range(r.randint(0, 3))]]
+        if k == "map":
+            # keys and values that read variables
+            return ["map", [[r.choice([["ref", r.choice(VARS)], ["str", r.choice(["k", "b"])], self.leaf()]), self.expr(d - 1)] for _ in range(r.randint(1, 2))]]
         if k == "tern":
             return ["tern", ["bin", "==", self.expr(d - 1), self.leaf()], self.expr(d - 1), self.expr(d - 1)]
         if k == "call":
@@ -108,6 +111,17 @@ class AsgGen:
         r = self.rnd
         n = gen.wchoice(r, [(0, 0.3), (1, 2), (2, 3), (3, 3), (4, 2), (6, 1), (8, 0.5)])
         stmts = [self.stmt() for _ in range(n)]
+        if n and r.random() < 0.25:
+            # two adjacent stores to one name, the second reading the first through every kind of position
+            v = r.choice(VARS)
+            x = ["ref", v]
+            lit = r.choice([gen.num_lit(*r.choice(gen.NUM_SMALL)), ["str", "k"], ["bool", True], ["list", [["num", "1", 0]]]])
+            use = r.choice([["map", [[x, ["str", "one"]]]], ["map", [[["str", "k"], x]]], ["list", [x]], ["list", [["num", "0", 0], x, x]], ["tern", ["bin", "==", x, lit], ["num", "1", 0], ["num", "2", 0]],
+                            ["fn", "last", [x]], ["fn", "last", [["num", "3", 0], ["map", [[x, x]]]]], ["un", "-", x], ["bin", "+", x, ["num", "1", 0]], ["bin", "in", x, ["list", [x]]], ["post", x, "++"], x,
+                            ["map", [[["list", [x]], ["num", "1", 0]]]]])
+            at = r.randrange(len(stmts) + 1)
+            stmts[at:at] = [["bin", "=", x, lit], ["bin", r.choice(["=", "=", "=", "+=", "*="]), x, use]] + ([x] if r.random() < 0.5 else [])
+            n = len(stmts)
         if n and r.random() < 0.6:
             # start from numeric bindings so that compound assignments have something to work on
             pre = [["bin", "=", ["ref", v], gen.num_lit(*r.choice(gen.NUM_SMALL))] for v in VARS if r.random() < 0.7]
@@ -121,7 +135,15 @@ class AsgGen:
         r = self.rnd
         if r.random() < 0.25:
             return {}
-        return {v: (r.choice(INIT_VALUES[:5]) if r.random() < 0.75 else r.choice(INIT_VALUES)) for v in VARS if r.random() < 0.8}
+        c = {v: (r.choice(INIT_VALUES[:5]) if r.random() < 0.75 else r.choice(INIT_VALUES)) for v in VARS if r.random() < 0.8}
+        if "m" in c and r.random() < 0.8:
+            c["m"] = INIT_VALUES[11]  # a map with the keys 'k' and 'b': the names m.k / a.b are still separate, unbound names
+        if r.random() < 0.5:
+            c.pop("m.k", None)
+            c.pop("a.b", None)
+        if "a" in c and r.random() < 0.3:
+            c["a"] = INIT_VALUES[11]
+        return c
 
 
 def has_assign(t):
